@@ -38,7 +38,12 @@ def Gate.add (g : Gate) (v : VShred) : Gate × GateVerdict :=
       if c ≠ v.commitment then ({ g with misbehaved := true }, .equivocation)
       else
         match g.lastSlice with
-        | none => (if isLast then { g with lastSlice := some idx } else g, .pass)
+        | none =>
+          if isLast then
+            -- (after the D2 `fix:`) a slice already seen beyond the newly declared last slice contradicts the marker
+            if g.cache.any (fun e => decide (e.1 > idx)) then ({ g with misbehaved := true }, .equivocation)
+            else ({ g with lastSlice := some idx }, .pass)
+          else (g, .pass)
         | some l =>
           if (idx < l && !isLast) || (idx == l && isLast) then (g, .pass)
           else ({ g with misbehaved := true }, .equivocation)
@@ -46,7 +51,11 @@ def Gate.add (g : Gate) (v : VShred) : Gate × GateVerdict :=
       -- the cache entry is inserted before the last-slice check (and stays when that check fails)
       let g' := { g with cache := (idx, v.commitment) :: g.cache }
       match g.lastSlice with
-      | none => (if isLast then { g' with lastSlice := some idx } else g', .pass)
+      | none =>
+        if isLast then
+          if g'.cache.any (fun e => decide (e.1 > idx)) then ({ g' with misbehaved := true }, .equivocation)
+          else ({ g' with lastSlice := some idx }, .pass)
+        else (g', .pass)
       | some l =>
         if (idx < l && !isLast) || (idx == l && isLast) then (g', .pass)
         else ({ g' with misbehaved := true }, .equivocation)
